@@ -179,8 +179,12 @@ func (s *Server) Run(addr string, opt ...Option) error {
 		default:
 			// need a default to fall through to rest of loop...
 		}
+		// count the connection before accepting it, so that Stop can never see
+		// a zero wait group while an accepted conn is still being set up
+		s.connWg.Add(1)
 		c, err := s.listener.Accept()
 		if err != nil {
+			s.connWg.Done()
 			if strings.Contains(err.Error(), "use of closed network connection") {
 				s.logger.Debug("accept on closed conn")
 				return nil
@@ -190,11 +194,11 @@ func (s *Server) Run(addr string, opt ...Option) error {
 		s.logger.Debug("new connection accepted", "op", op, "conn", connID)
 		conn, err := newConn(s.shutdownCtx, connID, c, s.logger, s.router)
 		if err != nil {
+			s.connWg.Done()
 			return fmt.Errorf("%s: unable to create in-memory conn: %w", op, err)
 		}
 		conn.recoverPanics = !s.disablePanicRecovery
 		localConnID := connID
-		s.connWg.Add(1)
 		go func() {
 			defer func() {
 				// Stop waits on connWg: release it only once the conn is closed
